@@ -154,8 +154,8 @@ def nthroot(x, n):
 def _reduce_half(x):
     # x = n/2 + r with |r| <= 1/4 (both exact) and n taken modulo 4
     if x >= 9007199254740992.0:
-        # an even integer
-        return 0, 0.0
+        # an even integer (infinity: no value)
+        return 0, x - x
     n, r = divmod(x, 0.5)
     if r > 0.25:
         r -= 0.5
